@@ -24,7 +24,7 @@ def run(tier, v, wd, replay=None):
     v.coverage["exhaustive"] = True
     v.coverage["explanation"] = ("every singleton and ordered pair over the 53-pattern universe (all strings of length<=2 over {a,b,1,-,_,.} "
                                  "+ hand-picked longer/bad ones) for kinds full/suffix/keyword, 20 structured regexes, against all 258 names "
-                                 "of length<=3 + 19 longer names (upper case, trailing dot); plus random label-sharing sets; sets are packed "
+                                 "of length<=3 + 27 longer names (upper case next to every character class, trailing dot); plus random label-sharing sets; sets are packed "
                                  "64 at a time into one matcher at seed-chosen bit indices incl. 0,31,32,63,64,1023")
     v.assumptions += ["regex kind restricted to (^)?(lit|lit)($)? rendered with regexp.QuoteMeta",
                       "a keyword set containing an out-of-alphabet character may be rejected as a whole by Build (clean error)"]
